@@ -119,7 +119,8 @@ fn explore(ctx: &Ctx) -> Outcome {
     layers.push(json!({"family": "length sweep: label name / string lengths 0..=48, shared or not", "archives": sweep.len(), "completed": true}));
     total.absorb(t);
     // long multi-byte strings at every alignment
-    let mb = binfam::multibyte_alignment();
+    let mut mb = binfam::multibyte_alignment();
+    mb.extend(binfam::kana_family());
     let t = mb
         .par_iter()
         .fold(Tally::new, |mut t, c| {
